@@ -46,17 +46,20 @@ pub struct Run {
     pub keep_prefix: bool,      // C06: String / Vec sinks start with existing content that must survive, capacity unchanged
     pub stall_ok: bool,         // C06, destinations below the documented minimum: an OutputFull call without progress ends the run
     pub stalled: bool,
+    pub grow: bool,             // after the first `grow_calls` calls (symbolic, possibly tiny capacities) the caller offers a large destination
+    pub grow_calls: usize,
 }
 
 impl Run {
     pub fn new(cap: usize) -> Run {
         Run { log: Log::new(), calls: 0, total_read: 0, had_errors: false, output_full_seen: false, finished: false,
               caps: [cap; 8], ncaps: 1, cap_lo: cap, cap_hi: cap, drawn: 0, max_calls: 200, min_progress: true, full_while_pending: false, prefix_check: 0,
-              wf_check: false, str_fill: 0, sym_fill: 0, keep_prefix: false, stall_ok: false, stalled: false }
+              wf_check: false, str_fill: 0, sym_fill: 0, keep_prefix: false, stall_ok: false, stalled: false, grow: false, grow_calls: 2 }
     }
     /// symbolic per-call capacities in lo..=hi for the first `n` calls (then cycled)
     pub fn sym_caps(&mut self, lo: usize, hi: usize, n: usize) { self.cap_lo = lo; self.cap_hi = hi; self.ncaps = n; self.drawn = 0; }
     pub fn cap(&mut self) -> usize {
+        if self.grow && self.calls >= self.grow_calls { return 56; }
         let k = self.calls % self.ncaps;
         if self.cap_hi > self.cap_lo && k >= self.drawn && self.calls < self.ncaps {
             self.caps[k] = sym_range(110 + k as u32, self.cap_lo, self.cap_hi);
